@@ -9,6 +9,9 @@ import ZepidVerif.Model.Ipw
 import ZepidVerif.Model.Ipmw
 import ZepidVerif.Model.Ipcw
 import ZepidVerif.Model.Stochastic
+import ZepidVerif.Gen.Stoch
+import ZepidVerif.Gen.Ipcw
+import ZepidVerif.Gen.Ipmw
 namespace ZVD
 open ZV ZV.Std
 
@@ -69,15 +72,31 @@ def parsePlan_C05 (a : Args) : Except String (Stoch.Plan F) :=
     if ps.length ≠ ms.length then throw "bad-arg:lengths"
     pure (.cond ((ps.zip ms).map fun (p, m) => ⟨fun i => (m.toArray).getD i false, p⟩))
 
-/-- StochasticIPTW: numerators, weights and the marginal outcome -/
+/-- the arguments of `StochasticIPTW.fit` as the generated definition takes them: `p=` (unconditional) or `ps=` +
+    `masks=` (conditional, listing order) → (hasCond, p, ps, conditional) -/
+def parsePlanArgs (a : Args) : Except String (Bool × F × List F × List (Nat → Bool)) :=
+  match a.get? "p" with
+  | some _ => do pure (false, ← need a "p" (Carrier.parse (F := F)), [], [])
+  | none => do
+    let ps ← need a "ps" (parseList (Carrier.parse (F := F)))
+    let ms ← need a "masks" (parseLists_C05 parseBool)
+    if ps.length ≠ ms.length then throw "bad-arg:lengths"
+    pure (true, ((0 : Nat) : F), ps, ms.map fun m => let arr := m.toArray; fun i => arr.getD i false)
+
+/-- StochasticIPTW: numerators, weights and the marginal outcome **from the definition regenerated from the text of
+    `StochasticIPTW.fit`** (`Gen.stoch_iptw_fit`; `hasw=0` = no weight column was given, default 1 with `w=` all ones
+    when absent); `haw` (StochasticTMLE's clever covariate) from the hand model -/
 def opStochW (a : Args) : Except String String := do
   let l : List (Row F) ← parseRows a
   let g : Array F ← vals a "g"
   let pl ← parsePlan_C05 (F := F) a
-  let nu := l.map (Stoch.planNumer pl)
-  let ws := l.map (Stoch.stochWeight pl (look g))
+  let (hasCond, p, ps, conditional) ← parsePlanArgs (F := F) a
+  let hasW ← match a.get? "hasw" with
+    | some _ => need a "hasw" parseBool
+    | none => pure true
+  let (numer, ipw, m) := Gen.stoch_iptw_fit hasCond hasW p ps conditional l (look g)
   let hw := l.map (Stoch.haw pl (look g))
-  pure s!"ok numer={showList (showOpt sh) nu} w={showList (showOpt sh) ws} haw={showList (showOpt sh) hw} m={showOpt sh (Stoch.stochIptw pl (look g) l)}"
+  pure s!"ok numer={showList (showOpt sh) (l.map numer)} w={showList (showOpt sh) (l.map ipw)} haw={showList (showOpt sh) hw} m={showOpt sh m}"
 
 /-- IPMW: `obs=` one `;`-separated list per variable; `d=`/`n=` likewise with `_` = NaN prediction -/
 def opIpmw (a : Args) : Except String String := do
@@ -99,6 +118,13 @@ def opIpmw (a : Args) : Except String String := do
   match Ipmw.ipmw rows k stab nfun dfun with
   | .error e => pure ("err " ++ showErr e)
   | .ok o =>
+    -- the weights come from the definitions regenerated from the text of `_monotone_variables` / `_single_variable` and
+    -- `fit` (`Gen/Ipmw.lean`); which of the two runs (`regression_models`' dispatch on overall uniformity) and the
+    -- fitting plan stay with the hand model
+    let ws := rows.map fun r =>
+      if Ipmw.overallUniform rows k then Gen.ipmw_single_weight stab nfun dfun r
+      else Gen.ipmw_monotone_weight stab k (Ipmw.pairUniform rows) nfun dfun r
+    let o : Ipmw.Out F := ⟨ws, o.plan⟩
     let vars := o.plan.map (·.1)
     let sets := ";".intercalate (o.plan.map fun p => if p.2.isEmpty then "[]" else "|".intercalate (p.2.map toString))
     pure s!"ok w={showList (showOpt sh) o.weights} vars={showList toString vars} sets={sets}"
@@ -119,14 +145,19 @@ def opIpcw (a : Args) : Except String String := do
   match Ipcw.prepLong (mkRecs ids ts ev) with
   | .error e => pure ("err " ++ showErr e)
   | .ok p =>
-    let base := s!"ok order={showList toString (p.rows.map (·.lab))} unc={showList showBool p.unc}"
+    -- the indicator column and the weights come from the definitions regenerated from the text of `IPCW.__init__`,
+    -- `regression_models` and `fit` (`Gen/Ipcw.lean`), run on the sorted frame
+    let unc := match Ipcw.maxTime (mkRecs ids ts ev) with
+      | some m => (Gen.ipcw_uncensored m p.rows).map (· == 1)
+      | none => []
+    let base := s!"ok order={showList toString (p.rows.map (·.lab))} unc={showList showBool unc}"
     match a.get? "num" with
     | none => pure base
     | some _ =>
       let num : Array F ← vals a "num"
       let den : Array F ← vals a "den"
       let lk := fun (arr : Array F) (i : Nat) => arr.getD i ((0 : Nat) : F)
-      pure (base ++ s!" w={showList sh (Ipcw.weights p.rows (lk num) (lk den))}")
+      pure (base ++ s!" w={showList sh (Gen.ipcw_weights p.rows (lk num) (lk den))}")
 
 /-- IPCW `_dataprep` -/
 def opIpcwFlat (a : Args) : Except String String := do
@@ -140,7 +171,10 @@ def opIpcwFlat (a : Args) : Except String String := do
     | _, _, _, _ => []
   match Ipcw.prepFlat (go 0 ids ts ti ev) with
   | .error e => pure ("err " ++ showErr e)
-  | .ok (ex, unc) =>
+  | .ok (ex, _) =>
+    let unc := match Ipcw.maxTime (ex.map (·.r)) with
+      | some mo => (Gen.ipcw_flat_uncensored mo (ex.map (·.r))).map (· == 1)
+      | none => []
     pure s!"ok lab={showList toString (ex.map (·.r.lab))} tenter={showList toString (ex.map (·.tenter))} tout={showList sh (ex.map (·.r.time))} delta={showList showBool (ex.map (·.r.event))} unc={showList showBool unc}"
 
 end
